@@ -201,6 +201,41 @@ theorem C02_vs_fresh_build (F : BodyFn) (P : Project) (cfg cfg' : Cfg) (w w' : W
   have := scratch_functional hwf huniq (scratch_congr hwf hinputs hs) v' hs'
   rw [hv, hv', this]
 
+/-! ## why "static dependency sets" is needed: the full statement is false of the current code -/
+
+/-- **C02_full** — `C02_success` without the static project: between the two builds the project may
+change from `P` to `P'` (tasks, dependencies, products) while file contents — module files included —
+stay as they are. (In `C02_partial` a change of a task is a change of its module content.) -/
+def C02_full : Prop :=
+  ∀ (F : BodyFn) (P P' : Project) (w : World) (picks picks' : List Nat) (r r' : Result),
+    WF P → WF P' → BodiesTotal P → BodiesTotal P' → w.db = [] →
+    build F P {} w picks = .ok r → build F P' {} r.w picks' = .ok r' →
+    (∀ u ∈ P'.tasks, u.persist = false ∧
+      ((u.id, Outcome.success) ∈ r'.reports ∨ (u.id, Outcome.skipUnchanged) ∈ r'.reports)) →
+    ∀ t ∈ P'.tasks, ∀ p i, (p, i) ∈ t.prods.zipIdx →
+      ∃ v, lookup r'.w.fs p = some v ∧ Scratch F P' r'.w.fs p v
+
+/-- **C02_full is false** (finding F11b, same root cause as F11: the set of tracked neighbours is
+not recorded, only one row per neighbour). Witness `shP → shP'`: a task whose dependency list
+shrinks from `[10, 11]` to `[10]` without its module changing (dependencies computed by a glob at
+import time, a configuration value, …). Every remaining neighbour still matches its row, the stale
+row for 11 is never looked at, the task is reported SKIP_UNCHANGED and the product keeps the value
+computed from both files (13) instead of the from-scratch value (6). -/
+theorem C02_full_false : ¬ C02_full := by
+  intro h
+  obtain ⟨v, hv, hs⟩ := h exF shP shP' shW [0] [0] shR1 shR2 shWF shWF' shBT shBT' rfl shBuild1 shBuild2
+    (by intro u hu; simp only [shP', List.mem_singleton] at hu; subst hu; exact ⟨rfl, Or.inr (by decide)⟩)
+    shT' (by simp [shP']) 20 0 (by decide)
+  have h13 : lookup shR2.w.fs 20 = some 13 := by decide
+  rw [h13] at hv
+  have huniq : ∀ t ∈ shP'.tasks, ∀ u ∈ shP'.tasks, ∀ p, p ∈ t.prods → p ∈ u.prods → t = u := by
+    intro t ht u hu _ _ _
+    simp only [shP', List.mem_singleton] at ht hu
+    rw [ht, hu]
+  have := scratch_functional shWF' huniq hs 6 shScratch
+  rw [← Option.some.inj hv] at this
+  exact absurd this (by decide)
+
 /-! ## non-vacuity (project `exP`: input 10 → task 0 → 20 → task 1 → 21, 22; see `Lemmas/EngineExample.lean`) -/
 
 /-- A real history: first build, edit of the input, second build, edit of task 1's module. The
